@@ -30,6 +30,9 @@ pub enum HOp {
     /// re-insertion of the same element, which replaces the unit value): removes instance `v` or
     /// does nothing
     MaybeRemove { v: u64 },
+    /// an unconditional removal that may or may not happen (the second and later passes of a
+    /// `clear` that restarted in the next table after meeting a forwarding marker)
+    MaybeForceRemove,
 }
 
 #[derive(Clone, Debug, Serialize)]
@@ -111,7 +114,7 @@ fn apply(op: &HOp, s: Option<u64>) -> Option<Option<u64>> {
             }
         }
         // (the "does nothing" outcome; the removing outcome is added by the search)
-        HOp::MaybeRemove { .. } => Some(s),
+        HOp::MaybeRemove { .. } | HOp::MaybeForceRemove => Some(s),
     }
 }
 
@@ -165,6 +168,9 @@ pub fn check_key(init: Option<u64>, ents: &[HEnt]) -> Result<Vec<Option<u64>>, S
                 if st == Some(*v) {
                     stack.push((done | 1 << i, None));
                 }
+            }
+            if matches!(e.op, HOp::MaybeForceRemove) && st.is_some() {
+                stack.push((done | 1 << i, None));
             }
         }
     }
